@@ -234,9 +234,7 @@ def sortSafe (re : Regex) (routes : List Route) (req : Request) : Bool :=
 
 structure VHDriver where
   known : List String := []
-  names : List String := []
-  vhd : List String := []
-  vhosts : List VirtualHost := []
+  inputs : List VHInput := []     -- the `buildVirtualHost` calls so far; the virtual hosts are `buildVHosts known inputs [] []`
   acc : List Route := []
 
 end IstioModel.C12
